@@ -58,6 +58,28 @@ def _write_json(path, value):
     os.replace(tmp, path)
 
 
+def source_fingerprint():
+    """sha256 over the simulator's and the library's source files: a run during which either changed
+    (an edit while it was going) is a harness error, not evidence and not a violation."""
+    h = hashlib.sha256()
+    roots = [os.path.join(VERIF_DIR, "sim"), os.path.join(REPO_SRC, "curies")]
+    for root in roots:
+        for d, dirs, files in sorted(os.walk(root)):
+            dirs.sort()
+            if "__pycache__" in d:
+                continue
+            for f in sorted(files):
+                if f.endswith(".py"):
+                    path = os.path.join(d, f)
+                    h.update(path.encode())
+                    with open(path, "rb") as fh:
+                        h.update(fh.read())
+    kf = os.path.join(VERIF_DIR, "known_findings.json")
+    if os.path.exists(kf):
+        h.update(open(kf, "rb").read())
+    return h.hexdigest()
+
+
 def cmd_digest(args):
     load_curies()
     from .runner import load_known
@@ -129,6 +151,7 @@ def cmd_check(args):
     from .minimise import minimise
 
     t0 = time.time()
+    fp0 = source_fingerprint()
     known, fixed = runner.load_known(prop)
     print(f"SEED {base_seed} property={prop} tier={tier} repo_src={REPO_SRC} head={repo_head()}")
 
@@ -150,6 +173,10 @@ def cmd_check(args):
     det = runner.determinism_check(prop, tier, base_seed, agg, known,
                                    n_inproc=8 if tier == "quick" else 24,
                                    n_fresh=6 if tier == "quick" else 16)
+
+    if source_fingerprint() != fp0:
+        raise HarnessError("source files of the simulator or of curies changed while the batch was running; "
+                           "nothing from this run is believed - run it again")
 
     violation_path = None
     vio = None
@@ -252,6 +279,7 @@ def _write_evidence(prop, tier, base_seed, agg, det, reg, violations, wall, budg
         "runs_requested": runs,
         "repo_head": repo_head(),
         "repo_src": REPO_SRC,
+        "source_fingerprint": source_fingerprint()[:16],
     }
     if note:
         cov["note"] = note
